@@ -52,6 +52,21 @@ def utf8Chars : Bytes → Option (List Char)
       | _ => none
     else none
 
+/-- `str.encode("utf-8")` of one character (a Lean `Char` is a Unicode scalar value: surrogates excluded). -/
+def utf8EncodeChar (c : Char) : Bytes :=
+  let n := c.toNat
+  if n < 0x80 then [UInt8.ofNat n]
+  else if n < 0x800 then [UInt8.ofNat (0xC0 + n / 64), UInt8.ofNat (0x80 + n % 64)]
+  else if n < 0x10000 then
+    [UInt8.ofNat (0xE0 + n / 4096), UInt8.ofNat (0x80 + n / 64 % 64), UInt8.ofNat (0x80 + n % 64)]
+  else [UInt8.ofNat (0xF0 + n / 262144), UInt8.ofNat (0x80 + n / 4096 % 64), UInt8.ofNat (0x80 + n / 64 % 64),
+        UInt8.ofNat (0x80 + n % 64)]
+
+/-- `str.encode("utf-8")`. -/
+def utf8Encode : List Char → Bytes
+  | [] => []
+  | c :: cs => utf8EncodeChar c ++ utf8Encode cs
+
 /-- State of a `Type1FontHeaderParser` (a `PSStackParser` whose `flush` does nothing). -/
 structure T1State where
   context : List (Option Ctx × List SObj) := []
